@@ -39,7 +39,7 @@ def _run_job(job):
     try:
         tr = engrun.run_program(job['prog'], scheduler=job.get('scheduler', 'default'), policy=job.get('policy', 'random'),
                                 seed=job.get('seed', 0), ops=job.get('ops'), dups=job.get('dups', 0),
-                                evict=job.get('evict', False), max_steps=job.get('max_steps', 400), c20=job.get('c20'))
+                                evict=job.get('evict', False), max_steps=job.get('max_steps', 400), c20=job.get('c20'), ids=job.get('ids', 'rand'))
         tr['meta']['label'] = job.get('label', '')
         tr['meta']['yaml'] = job['prog'].yaml()
         tr['meta']['ops'] = job.get('ops') or []
